@@ -13,7 +13,8 @@ import dbgen
 
 ALPHA = csvtie.ALPHA + ["_none", "_tag_", "_field_", "t_", "f_", "tt", "ft", "_t", "é", " ", "\x1c", "\U0001F600"]
 KEY_HEADS = ["", "t", "f", "_", "t_", "f_", "_tag_", "_field_", "tf", "ft", "a", "_none", ",", '"', "\n"]
-EDGE = [" x", "x ", " ", "  ", "\tx", "x\t", '"', '""', "'", "''", 'a"b', "\r", "\n", "\r\n", "x\ny", ",", ";", "|", "\\", "\\n", "#x", "\ufeffx", "=1+1",
+SENTINEL_LIKE = ["\\x_none", "\\_none", "x_none", "_none_", "\\\\a_none", "_None", "__none", "\\", "\\\\", "_none\\", "\\n_none", "none", "_non"]
+EDGE = SENTINEL_LIKE + [" x", "x ", " ", "  ", "\tx", "x\t", '"', '""', "'", "''", 'a"b', "\r", "\n", "\r\n", "x\ny", ",", ";", "|", "\\", "\\n", "#x", "\ufeffx", "=1+1",
         "_none ", " _none", "0", "-1", "1e5", "nan", "inf", "None", "t_x", "f_x", "_tag_x", "_field_x", "t", "f", "_", "é ", " \U0001F600"]
 DIALECTS = [dict(), dict(), dict(delimiter=";"), dict(delimiter="\t", quotechar="'"), dict(quoting=csv.QUOTE_ALL), dict(delimiter="|", quotechar="'", quoting=csv.QUOTE_ALL)]
 
@@ -43,7 +44,7 @@ def rpoint(rng, reserved_ok):
     meas = rng.choice(["m", "_default", rstr(rng, 1, 5) or "m", "_none", "t", "f"])
     tags = {}
     for _ in range(rng.choice([0, 1, 1, 2, 3])):
-        v = rng.choice([None, "", rstr(rng), rstr(rng, 1, 4)])
+        v = rng.choice([None, "", rstr(rng), rstr(rng, 1, 4), rng.choice(SENTINEL_LIKE)])
         tags[rkey(rng)] = v
     fields = {rkey(rng): (None if rng.random() < 0.15 else rfloat(rng)) for _ in range(rng.choice([0, 1, 1, 2, 3]))}
     p = {"time": t, "meas": meas, "tags": tags, "fields": fields}
@@ -222,6 +223,42 @@ def main(tier, seed):
         if not ok and len(direct_bad) < 4:
             direct_bad.append({"kind": "failing-input", "why": "points written to a CSV database and read back after reopening differ", "csv_kwargs": {k: str(v) for k, v in kw.items()},
                                "points": pts, "read_back": got, "read_on_the_live_object_after_a_rewrite": got_live})
+    # (4) several CSV databases with DIFFERENT csv options open at the same time, written alternately: the options belong to the database
+    for a_kw, b_kw in ((DIALECTS[0], DIALECTS[2]), (DIALECTS[3], DIALECTS[0]), (DIALECTS[5], DIALECTS[2])):
+        d = ck.work / f"pair{file_runs}"
+        d.mkdir()
+        pa, pb = str(d / "a.csv"), str(d / "b.csv")
+        dba = tf.TinyFlux(pa, **a_kw)
+        pts_a = [{"time": dbgen.T0 + i, "meas": "it's; a,b", "tags": {"q": "x;y,z'\""}, "fields": {"n": float(i)}} for i in range(2)]
+        pts_b = [{"time": dbgen.T0 + 10 + i, "meas": "b|m", "tags": {"q": "'semi;colon'", "r": "a,b"}, "fields": {"n": float(i)}} for i in range(2)]
+        dba.insert(M.real_point(tf, pts_a[0]))
+        dbb = tf.TinyFlux(pb, **b_kw)                       # the second database is opened while the first is live
+        dbb.insert(M.real_point(tf, pts_b[0]))
+        dba.insert(M.real_point(tf, pts_a[1]))
+        dbb.insert(M.real_point(tf, pts_b[1]))
+        try:
+            live_a = [M.canon_point(q) for q in dba.all(sorted=False)]
+        except Exception as e:  # noqa
+            live_a = ("raise", type(e).__name__)
+        dba.close()
+        dbb.close()
+        got = {}
+        for nm, path, kw in (("first", pa, a_kw), ("second", pb, b_kw)):
+            try:
+                db2 = tf.TinyFlux(path, **kw)
+                try:
+                    got[nm] = [M.canon_point(q) for q in db2.all(sorted=False)]
+                finally:
+                    db2.close()
+            except Exception as e:  # noqa
+                got[nm] = ("raise", type(e).__name__)
+        file_runs += 1
+        same = lambda g, pts: not isinstance(g, tuple) and len(g) == len(pts) and all(py_equal(a, x) for a, x in zip(pts, g))
+        if not (same(got["first"], pts_a) and same(got["second"], pts_b) and same(live_a, pts_a)) and len(direct_bad) < 4:
+            direct_bad.append({"kind": "failing-input", "why": "two CSV databases with different csv options were open at the same time and written alternately; "
+                               "after reopening, one of them does not give back its points",
+                               "csv_kwargs_first": {k: str(v) for k, v in a_kw.items()}, "csv_kwargs_second": {k: str(v) for k, v in b_kw.items()},
+                               "points_first": pts_a, "points_second": pts_b, "read_back_first": got["first"], "read_back_second": got["second"], "first_read_while_both_open": live_a})
     # verdicts
     for name, tail in failed:
         ck.violation({"kind": "model-evaluation-failed", "what_no_longer_checks": name, "log": tail}, no_input=True)
